@@ -16,7 +16,7 @@ pub fn prop() -> Prop {
     Prop {
         id: "C14",
         level: "exploration",
-        rule: "complete tables: each of the 7 builtins x a 70-value alphabet covering every type (null, both bools, boundary integers, floats incl. signed zero, tiny, huge, infinities and NaN, numeric / padded / signed / exponent / empty / non-ASCII text, empty and nested arrays, named and anonymous functions) with 1 argument; x a 12-value subset squared and cubed with 2 and 3 arguments; with no argument; identity t(v) for v of type t; round trips int(string(i)) for every i of the integer lattice and float(string(x)) for every float of the alphabet and every lattice integer below 2^53; digit patterns (every integer to 20 000, every a*10^k + b, sums of tenths, integers just above 2^53..2^59, 26 awkward number texts x 6 builtins, nested arrays with quotes / braces / integral floats, arguments containing placeholders); every decimal text i.ff (i <= 20), d.fff, and k/100, k*1.1 (k <= 2000) through string() and back; magnitude ladders (floats m x 10^k for |k| <= 40 and m x 2^k for |k| <= 70, integers 10^k and neighbours, digit strings of 1..24 digits, print with N placeholders for N up to 253 and N-1 / N / N+1 arguments); print with every format string of <= 4 pieces over {{}, {, }, a, space, é, €, 😀} x 0..4 further arguments drawn from 5 values, and with a first argument of every type. Oracle: the reference functions of the model (U11 leniency for non-canonical number spellings). Non-trivial = the model defines the outcome; distinct = distinct texts",
+        rule: "complete tables: each of the 7 builtins x a 70-value alphabet covering every type (null, both bools, boundary integers, floats incl. signed zero, tiny, huge, infinities and NaN, numeric / padded / signed / exponent / empty / non-ASCII text, empty and nested arrays, named and anonymous functions) with 1 argument; x a 12-value subset squared and cubed with 2 and 3 arguments; with no argument; identity t(v) for v of type t; round trips int(string(i)) for every i of the integer lattice and float(string(x)) for every float of the alphabet and every lattice integer below 2^53; digit patterns (every integer to 20 000, every number of up to 18 digits with at most three non-zero digits from {1, 9}, every a*10^k + b, sums of tenths, integers just above 2^53..2^59, 26 awkward number texts x 6 builtins, nested arrays with quotes / braces / integral floats, arguments containing placeholders); every decimal text i.ff (i <= 20), d.fff, and k/100, k*1.1 (k <= 2000) through string() and back; magnitude ladders (floats m x 10^k for |k| <= 40 and m x 2^k for |k| <= 70, integers 10^k and neighbours, digit strings of 1..24 digits, print with N placeholders for N up to 253 and N-1 / N / N+1 arguments); print with every format string of <= 4 pieces over {{}, {, }, a, space, é, €, 😀} x 0..4 further arguments drawn from 5 values, and with a first argument of every type. Oracle: the reference functions of the model (U11 leniency for non-canonical number spellings). Non-trivial = the model defines the outcome; distinct = distinct texts",
         assumptions: &["reference builtins of refint.rs (DESIGN 4.2 Builtins)", "U11: non-canonical number spellings (padding, +5, 1e5, inf, nan) are not compared"],
         run,
         replay,
@@ -272,6 +272,35 @@ fn run_tables(sh: &mut Shard) {
                 case(sh, "digit-patterns", vec![es(calln("float", vec![lit_expr(v)]))]);
                 case(sh, "digit-patterns", vec![es(calln("int", vec![string(&format!("{v}"))]))]);
             }
+        }
+    }
+    // sparse-digit numbers: every number of up to 18 digits with at most three non-zero digits from {1, 9}
+    // (all the zero runs a hand-written formatter or parser can meet), both signs
+    {
+        let mut vals: Vec<i64> = vec![];
+        for p1 in 0..18u32 {
+            for d1 in [1i64, 9] {
+                let a = d1 * 10i64.pow(p1);
+                vals.push(a);
+                for p2 in 0..p1 {
+                    for d2 in [1i64, 9] {
+                        let b = a + d2 * 10i64.pow(p2);
+                        vals.push(b);
+                        for p3 in 0..p2 {
+                            for d3 in [1i64, 9] {
+                                vals.push(b + d3 * 10i64.pow(p3));
+                            }
+                        }
+                    }
+                }
+            }
+        }
+        for v in vals {
+            if v >= (1 << 60) {
+                continue;
+            }
+            case(sh, "digit-patterns", vec![es(array(vec![calln("string", vec![lit_expr(v)]), calln("string", vec![lit_expr(-v)]), infix(calln("int", vec![calln("string", vec![lit_expr(v)])]), Operator::Eq, lit_expr(v))]))]);
+            case(sh, "digit-patterns", vec![es(calln("int", vec![string(&format!("-{v}"))]))]);
         }
     }
     for i in 0..=30i64 {
